@@ -156,7 +156,12 @@ void exercise(const std::string& path, size_t image_size, int mode, bool verify,
                 if (n > 0 && node && (int)carquet_schema_node_physical_type(node) == T_BA) {
                     // returned byte arrays must lie in memory the library owns: dereference a few (ASan / guard page decide)
                     int64_t chk = std::min<int64_t>(n, 6); volatile uint8_t sink = 0;
-                    for (int64_t i = 0; i < chk; i++) { carquet_byte_array_t ba; memcpy(&ba, vals.get() + (size_t)i * slot, sizeof ba); if (ba.length > 0 && ba.data && defs.get()) { sink ^= ba.data[0]; sink ^= ba.data[(size_t)ba.length - 1]; } }
+                    // only as many slots as rows are non-null are defined; without level buffers we cannot know, so only check when all delivered rows are present or levels were requested
+                    for (int64_t i = 0; i < chk; i++) { carquet_byte_array_t ba; memcpy(&ba, vals.get() + (size_t)i * slot, sizeof ba);
+                        bool slot_defined = carquet_schema_node_repetition(node) == CARQUET_REPETITION_REQUIRED && carquet_schema_node_max_def_level(node) == 0;
+                        if (!slot_defined) continue;
+                        SIM_CHECK(ba.length >= 0, "contract.negative_byte_array_length", "read_batch returned OK and byte array %lld has length %d", (long long)i, ba.length);
+                        if (ba.length > 0) { SIM_CHECK(ba.data != nullptr, "contract.null_byte_array", "byte array %lld has length %d and a NULL pointer", (long long)i, ba.length); sink ^= ba.data[0]; sink ^= ba.data[(size_t)ba.length - 1]; } }
                     (void)sink;
                 }
                 if (n <= 0) break;
@@ -254,16 +259,35 @@ void run_c04(sim::RunCtx& ctx) {
         // regenerate a layout deterministically from the PRNG (not the tape): simple pages, random dictionary use
         L.codec = peergen::PEER_CODECS[r.below(5)]; L.rng_seed = r.next();
         for (auto& rg : t.rgs) for (size_t c = 0; c < t.cols.size(); c++) { ref::ChunkLayout cl; size_t n = rg.cols[c].def.size(); if (n) { size_t cut = 1 + r.below((uint32_t)n); size_t at = cut; while (at < n && rg.cols[c].rep[at] != 0) at++; cl.page_entries.push_back(at); if (at < n) cl.page_entries.push_back(n - at); }
-            cl.dict = r.below(2); cl.dict_tag = r.below(2) ? 8 : 2; cl.crc = r.below(2); cl.level_policy = (int)r.below(4); cl.index_policy = (int)r.below(4); cl.chunk_stats = (int)r.below(4); cl.dict_offset_present = r.below(4) != 0; L.chunks.push_back(cl); }
+            cl.dict = r.below(2); cl.dict_tag = r.below(2) ? 8 : 2; cl.crc = r.below(2); cl.plain_first = cl.dict && r.below(4) == 0 ? 1 : 0; cl.level_policy = (int)r.below(4); cl.index_policy = (int)r.below(4); cl.chunk_stats = (int)r.below(4); cl.dict_offset_present = r.below(4) != 0; L.chunks.push_back(cl); }
         int nl = 1 + (int)r.below(3);
         for (int q = 0; q < nl && !L.chunks.empty(); q++) {
-            ref::Lie lie; lie.chunk = r.below((uint32_t)L.chunks.size()); lie.page = (int)r.below(3);
+            ref::Lie lie; lie.chunk = r.below(3) == 0 ? L.chunks.size() - 1 : r.below((uint32_t)L.chunks.size()); lie.page = (int)r.below(3);
+            if (r.below(3) == 0) { auto& cl = L.chunks[lie.chunk]; lie.page = (int)cl.page_entries.size() - 1 + (cl.dict ? 1 : 0); if (lie.page < 0) lie.page = 0; }   // the last page of the chunk (of the file, for the last chunk)
             static const std::vector<std::vector<int>> PATHS = {{1}, {2}, {3}, {4}, {5, 1}, {5, 2}, {5, 3}, {5, 4}, {7, 1}, {7, 2}, {8, 1}};
             uint32_t w = r.below(14);
-            if (w < 11) { lie.path = PATHS[w]; lie.value = boundary_value(r, 8, img.size(), img.size()); if (w < 4 || r.below(2)) lie.value = (int32_t)lie.value; if (lie.path.size() == 1 && lie.path[0] == 1) lie.value = (int64_t)r.below(5); if (lie.path == std::vector<int>{5, 2}) lie.value = (int64_t)r.below(12); }
+            if (w < 11 && r.below(3) == 0) { lie.path = PATHS[w]; lie.relative = true; static const int64_t D[] = {1, -1, 2, -2, 3, 4, 7, 8, 16, 31, 64, 100, 255, -8, 1000, -1000}; lie.value = D[r.below(16)]; }
+            else if (w < 11) { lie.path = PATHS[w]; lie.value = boundary_value(r, 8, img.size(), img.size()); if (w < 4 || r.below(2)) lie.value = (int32_t)lie.value; if (lie.path.size() == 1 && lie.path[0] == 1) lie.value = (int64_t)r.below(5); if (lie.path == std::vector<int>{5, 2}) lie.value = (int64_t)r.below(12); }
             else { lie.body_kind = (int)(w - 10); lie.value = lie.body_kind == 1 ? (int64_t)r.below(256) : boundary_value(r, 4, img.size(), img.size()); }
             L.lies.push_back(lie);
             what += sim::fmt(" lie(chunk%zu page%d %s=%lld)", lie.chunk, lie.page, lie.body_kind ? (lie.body_kind == 1 ? "bit_width" : lie.body_kind == 2 ? "def_len" : "rep_len") : sim::fmt("path%d%s", lie.path[0], lie.path.size() > 1 ? sim::fmt(".%d", lie.path[1]).c_str() : "").c_str(), (long long)lie.value);
+        }
+        // near-miss sizes: a page (or its declared uncompressed size) that ends a little before / exactly at / a little past the
+        // end of the file needs the real offsets, so emit once without lies to learn them
+        if (r.below(3) == 0 && !L.chunks.empty()) {
+            ref::Layout L0 = L; L0.lies.clear();
+            ref::Written W0 = ref::write_file(t, L0);
+            size_t c = r.below(2) ? L.chunks.size() - 1 : r.below((uint32_t)L.chunks.size());
+            if (!W0.chunks[c].page_bodies.empty()) {
+                size_t pg = r.below((uint32_t)W0.chunks[c].page_bodies.size());
+                int64_t to_eof = (int64_t)W0.bytes.size() - (int64_t)W0.chunks[c].page_bodies[pg].first;
+                static const int64_t NEAR[] = {0, 1, -1, 2, 7, 8, 9, 12, 13, 64, 255};
+                ref::Lie lie; lie.chunk = c; lie.page = (int)pg; lie.path = {r.below(4) ? 3 : 2};
+                uint32_t w = r.below(4);
+                lie.value = to_eof + (w == 0 ? NEAR[r.below(11)] : w == 1 ? (int64_t)r.below(400) : w == 2 ? (int64_t)r.below(6000) : -(int64_t)r.below(40));
+                L.lies.push_back(lie);
+                what += sim::fmt(" lie(chunk%zu page%zu size=to_eof%+lld)", c, pg, (long long)(lie.value - to_eof));
+            }
         }
         ref::Written W = ref::write_file(t, L);
         img.assign(W.bytes.begin(), W.bytes.end());
@@ -278,6 +302,7 @@ void run_c04(sim::RunCtx& ctx) {
     } else if (kind == 7) { int nf = 1 + (int)r.below(3); for (int q = 0; q < nf; q++) block_faults(img, r, what); }
     else if (kind == 9) what = "valid file, input stream faults";
     ctx.sample = (kind == 8 ? std::string() : vf.desc + " || ") + "hostile:" + what + (verify ? " verify=on" : " verify=off");
+    if (sim::L.keep) fprintf(stderr, "SIM-PLAN %s (image %zu bytes)\n", ctx.sample.c_str(), img.size());
     sim::disk_put(hpath, img);
     sim::L.bytes(img.data(), img.size());
     uint64_t evals = 0;
@@ -304,7 +329,7 @@ void register_c04() {
     p.rule = "one run = one hostile image derived from a valid one (peer- or carquet-written) by 1-3 storage faults: footer field mutation through the peer's Thrift value tree (boundary/random scalars, list length changes, dropped/renumbered/retyped fields, strings, nesting bombs up to 30000 levels, footer length), planted page-header/body inconsistencies emitted with coherent offsets (page type, sizes, crc, num_values, encodings, dictionary size, index bit width, level-block lengths), payload damage with verification off, lost/duplicated/spliced/zeroed blocks, truncation, bit flips, or pure garbage between valid magics; plus input-stream faults (EIO, failed seek, early EOF, fopen failure) on the fread path; each image is opened through the three transports and, if it opens, driven by a seeded history of every public reader call (out-of-range indices, exact-size caller buffers sized from the public schema accessors, batch reader, statistics/pruning, schema accessors, seeded release order); one evaluation = one API operation on a hostile handle; oracle: ASan/UBSan/guard pages, per-call tick budget c0 + c1*(image bytes + bytes granted by the allocator), error contract, ledger empty and all streams/mappings released";
     p.quick_runs = 60000; p.thorough_runs = 3000000;
     p.run = run_c04;
-    p.assumptions = {"tick budget per API call: 4e6 + 3000 x (image bytes + 4096 + bytes granted during the call) basic blocks; allocations above 64 MiB (or 256 MiB live) are refused by the simulated allocator, which bounds the budget",
+    p.assumptions = {"tick budget per API call: 4e6 + 3000 x (image bytes + 4096 + bytes granted to the library since the handle's transport was opened + live bytes) basic blocks; allocations above 64 MiB (or 256 MiB live) are refused by the simulated allocator, which bounds the budget",
                      "time spent inside zlib/zstd/libc is invisible to the tick counter; a 90 s wall-clock watchdog is the backstop and such a verdict is labelled hang:wallclock",
                      "caller buffers hold exactly max_values x size(schema physical type) bytes, as the public header tells users to size them"};
     register_property(p);
